@@ -37,7 +37,7 @@ struct TecmpRecipe
     uint8_t useSerial{0};  // status payloads: 1 = take the serial number from `serial` instead of deriving it from the seed
     uint32_t serial{0};
     int32_t vendorLen{-1};  // status payloads: value of the generic part's vendor-data-length field, -1 = the usual one (24 / 0)
-    uint8_t special{0};     // bus status: 1..3 = entry (seed % entries) carries interface id 0 / all three fields 0 / all fields all-ones
+    uint8_t special{0};     // bus status: 1..3 = entry (seed % entries) carries interface id 0 / all three fields 0 / all fields all-ones; 4..6 = an entry repeats fields of the entry before it
                             // (pseudo-random field values never hit the values a "missing" test would look for)
 
     void io(Ar& a)
@@ -125,7 +125,17 @@ struct TecmpRecipe
                     e.interfaceId = mix(seed, 100 + 3u * i);
                     e.messagesTotal = mix(seed, 101 + 3u * i);
                     e.errorsTotal = mix(seed, 102 + 3u * i);
-                    if (special && i == seed % entries)
+                    if (special >= 4 && entries >= 2 && i == seed % (entries - 1) + 1)
+                    {
+                        // neighbouring entries that are related: 4 = same interface id and messages total as the entry before (errors
+                        // total differs), 5 = same interface id only, 6 = identical to the entry before
+                        e.interfaceId = mix(seed, 100 + 3u * (i - 1));
+                        if (special == 4 || special == 6)
+                            e.messagesTotal = mix(seed, 101 + 3u * (i - 1));
+                        if (special == 6)
+                            e.errorsTotal = mix(seed, 102 + 3u * (i - 1));
+                    }
+                    else if (special && special < 4 && i == seed % entries)
                     {
                         if (special == 3)
                             e.interfaceId = e.messagesTotal = e.errorsTotal = 0xFFFFFFFFu;
